@@ -2,7 +2,7 @@
 from .. import cfgrun, cfgstream, core, pkggen, schemafam as F
 
 RULE = ("schemas with 1..3 abstract types and 0..4 concrete types implementing / extending them in random combinations, one "
-        "multisection slot per abstract type, 0..2 generated component packages adding implementers; texts of '<type/>' "
+        "multisection slot per abstract type plus single slots addressed by a fixed name whose type is abstract (any order), 0..2 generated component packages adding implementers; texts of '<type/>' "
         "lines for every kind of type name (implementer, extender, non-implementer, the abstract type itself, package type, "
         "unknown) with '%import' lines before, between and after; sequences of up to 4 loads on one schema object. The "
         "expected outcome is computed line by line from the statement (visible implementers = static ones + those imported "
@@ -28,6 +28,10 @@ def gen_world(rng, pk):
         con.append(n)
         impl[n] = im
     children = [F.SectD(a, "*", True, False, "s_" + a) for a in abss]
+    # slots addressed by a FIXED name whose type is abstract (single sections), in any position among the others
+    for a in abss:
+        if rng.random() < 0.45:
+            children.insert(rng.randint(0, len(children)), F.SectD(a, "fx" + a, False, False, None))
     sd = F.SchemaD(children, types)
     pkgs = []
     for j in range(rng.randint(0, 2)):
@@ -43,10 +47,16 @@ def gen_world(rng, pk):
     return sd, abss, con, impl, pkgs, bad
 
 
-def expected(abss, con, impl, pkgs, bad, lines):
-    """the statement, line by line; returns 'ok' or 'reject'"""
+def expected(abss, con, impl, pkgs, bad, lines, slots=None):
+    """the statement, line by line; returns 'ok' or 'reject'.  `slots` = the schema's section slots in schema order as
+    (fixed name or None, abstract type): the first slot that claims a header decides (a fixed-name slot claims the
+    header carrying its name and admits it only for an implementer of its type; a '*' slot claims every header whose
+    type implements its abstract type)"""
     visible = dict(impl)              # concrete type -> abstract implemented (or None)
     imported = set()
+    used = set()
+    if slots is None:
+        slots = [(None, a) for a in abss]
     for l in lines:
         if l.startswith("%import "):
             p = l.split()[1]
@@ -62,13 +72,30 @@ def expected(abss, con, impl, pkgs, bad, lines):
                             return "reject"     # a type name cannot be redefined
                         visible[t.name] = t.implements
         else:
-            t = l[1:-2].strip().split()[0].lower()
+            parts = l[1:-2].strip().split()
+            t = parts[0].lower()
+            nm = parts[1].lower() if len(parts) > 1 else None
             if t not in visible or visible[t] is None:
+                return "reject"
+            if nm is not None:
+                if nm in used:
+                    return "reject"          # a section name is not reused inside one container
+                used.add(nm)
+            verdict = "reject"
+            for fixed, ab in slots:
+                if fixed is not None:
+                    if nm == fixed:
+                        verdict = "ok" if visible[t] == ab else "reject"
+                        break
+                elif visible[t] == ab:
+                    verdict = "ok"
+                    break
+            if verdict != "ok":
                 return "reject"
     return "ok"
 
 
-def gen_text(rng, abss, con, impl, pkgs, bad):
+def gen_text(rng, abss, con, impl, pkgs, bad, fixed=()):
     names = list(con) + list(abss) + ["nosuch"] + [t.name for _, ptypes in pkgs for t in ptypes]
     lines = []
     for _ in range(rng.randint(1, 6)):
@@ -81,7 +108,15 @@ def gen_text(rng, abss, con, impl, pkgs, bad):
             # favour names that make the load succeed
             good = [n for n in names if impl.get(n)] + [t.name for _, pt in pkgs for t in pt if t.implements]
             n = rng.choice(good) if good and rng.random() < 0.7 else rng.choice(names)
-            lines.append("<" + (n.upper() if rng.random() < 0.2 else n) + (" x%d" % len(lines) if rng.random() < 0.3 else "") + "/>")
+            r2 = rng.random()
+            if fixed and r2 < 0.35:
+                f = rng.choice(fixed)
+                nm = " " + (f.upper() if rng.random() < 0.3 else f)
+            elif r2 < 0.55:
+                nm = " x%d" % len(lines)
+            else:
+                nm = ""
+            lines.append("<" + (n.upper() if rng.random() < 0.2 else n) + nm + "/>")
     return lines
 
 
@@ -100,7 +135,9 @@ def run(ctx):
             mp = [pkggen.model_pkg(n, pt, elab) for n, pt in pkgs] + \
                  [[bad["nocomp"], core.sexp.Atom("nocomponent")], [bad["module"], core.sexp.Atom("notpackage")],
                   [bad["missing"], core.sexp.Atom("notimportable")], ["a..b", core.sexp.Atom("illegalname")], [".x", core.sexp.Atom("illegalname")]]
-            texts = [gen_text(rng, abss, con, impl, pkgs, bad) for _ in range(12)]
+            slots = [(c.name if c.name not in ("*", "+", None) else None, c.type) for c in sd.children]
+            fixed = [f for f, _ in slots if f]
+            texts = [gen_text(rng, abss, con, impl, pkgs, bad, fixed) for _ in range(12)]
             if ctx.driver_ok:
                 ans = core.driver_batch([cfgrun.model_load_request(elab, t, cfgstream.URL, pkgs=mp) for t in texts])
             else:
@@ -108,7 +145,7 @@ def run(ctx):
             before = cfgrun.subtypes_table(real)
             history = []
             for t, a in zip(texts, ans):
-                exp = expected(abss, con, impl, pkgs, bad, t)
+                exp = expected(abss, con, impl, pkgs, bad, t, slots)
                 out, cfg, _ = cfgrun.real_load(real, "\n".join(t) + "\n", cfgstream.URL)
                 fresh, _, _ = cfgrun.real_load(F.load_real(sd), "\n".join(t) + "\n", cfgstream.URL)
                 ctx.evaluations += 1
@@ -137,7 +174,7 @@ def run(ctx):
                     history = []
                     real = F.load_real(sd)
                     before = cfgrun.subtypes_table(real)
-            ctx.sample({"lines": texts[0], "expected": expected(abss, con, impl, pkgs, bad, texts[0])})
+            ctx.sample({"lines": texts[0], "expected": expected(abss, con, impl, pkgs, bad, texts[0], slots)})
         # directed history: two packages define the same type name, only the first implements the abstract type
         sd = F.SchemaD([F.SectD("ab0", "*", True, False, "s_ab0")], [F.AbsD("ab0")])
         pa = pk.add_component([F.TypeD("shared", [], implements="ab0")])
